@@ -110,6 +110,17 @@ fn main() {
                 };
                 if kind == "none" { no_md() } else { AMd { kind: kind.into(), v: pick(r, &mdv).into() } }
             };
+            if std::env::var_os("VERIF_DIGESTS").is_some() && r.u32(..40) == 0 && layers_dir.join(&n).is_dir() {
+                // (paired runs of C20 only, never sent to TLC) something outside libcnb leaves two files that
+                // denote the same variable and behaviour in the layer's env directory: which one a later
+                // read yields is the library's choice - but the same choice in every process
+                let env_dir = layers_dir.join(&n).join("env");
+                std::fs::create_dir_all(&env_dir).unwrap();
+                std::fs::write(env_dir.join("DUP"), "without suffix").unwrap();
+                std::fs::write(env_dir.join("DUP.override"), "with suffix").unwrap();
+                std::fs::write(env_dir.join("DUP2.override"), "with suffix").unwrap();
+                std::fs::write(env_dir.join("DUP2"), "without suffix").unwrap();
+            }
             if w < 10 {
                 lifecycle_restore(&u, &layers_dir, &names.iter().map(|s| s.to_string()).collect::<Vec<_>>());
                 refs.clear();
